@@ -36,11 +36,11 @@ for n in ('spmv_avx_4x12', 'spmv_avx_4x12_a', 'spmv_avx_4x12_8'):
     for lane in range(4):
         UNITS.append(Unit('k_%s@lane%d' % (n, lane), 'l1_lane%d' % lane, 'k_' + n, replace=K1, functions=['Goldilocks::%s [lane %d] over the L1 contracts (%s)' % (n, lane, A)], timeout=400))
 for n, sp in (('mmult_avx_4x12', 'spmv_avx_4x12'), ('mmult_avx_4x12_a', 'spmv_avx_4x12_a'), ('mmult_avx_4x12_8', 'spmv_avx_4x12_8')):
-    UNITS.append(Unit('k_' + n, 'l2', 'k_' + n, replace=K1 + ['k_' + sp], functions=['Goldilocks::%s over the contracts of %s and add_avx (%s)' % (n, sp, A)], timeout=600, object_bits=12))
+    UNITS.append(Unit('k_' + n, 'l2', 'k_' + n, replace=K1 + ['k_' + sp], functions=['Goldilocks::%s over the contracts of %s and add_avx (%s)' % (n, sp, A)], timeout=600))
 for n, sp in (('dot_avx', 'spmv_avx_4x12'), ('dot_avx_a', 'spmv_avx_4x12_a')):
-    UNITS.append(Unit('k_' + n, 'l2', 'k_' + n, replace=['k_' + sp], functions=['Goldilocks::%s over the contract of %s (%s)' % (n, sp, A)], timeout=600, object_bits=12))
+    UNITS.append(Unit('k_' + n, 'l2', 'k_' + n, replace=['k_' + sp], functions=['Goldilocks::%s over the contract of %s (%s)' % (n, sp, A)], timeout=600))
 for n, mm in (('mmult_avx', 'mmult_avx_4x12'), ('mmult_avx_a', 'mmult_avx_4x12_a'), ('mmult_avx_8', 'mmult_avx_4x12_8')):
-    UNITS.append(Unit('k_' + n, 'l3', 'k_' + n, replace=['k_' + mm], functions=['Goldilocks::%s over the contract of %s (%s)' % (n, mm, A)], timeout=600, object_bits=12))
+    UNITS.append(Unit('k_' + n, 'l3', 'k_' + n, replace=['k_' + mm], functions=['Goldilocks::%s over the contract of %s (%s)' % (n, mm, A)], timeout=600))
 # the L1 kernels this chain stands on (their contracts are enforced against the real bodies by the C02 units, run here too)
 import re
 from vf.driver import import_units
